@@ -19,6 +19,7 @@ class Emitter:
         self.fn_ranges = []   # (start, end, fn name, src file, src line)
         self.vacuity = []     # vacuity twins (must fail)
         self.twins = []
+        self.degraded = []    # functions whose optional hint anchor was lost
         self.parts = []       # %opt split: verified copies of one function, each proving a subset of its ensures
         self.assumed_contracts = []
         self.imported_lemmas = []
@@ -422,6 +423,9 @@ def splice_after_let(body, fspec, fname):
                         q += 1
                     break
         if found is None:
+            if name in getattr(fspec, 'optional_lets', {}):
+                fspec.lost_optional = getattr(fspec, 'lost_optional', []) + [name]
+                continue
             raise ExtractError('after_let anchor `%s` not found in %s' % (name, fname))
         out[found + 1:found + 1] = [T('raw', '\n' + '\n'.join(lines) + '\n', out[found].start)]
     return out
@@ -737,6 +741,7 @@ def build_unit(unit, outdir):
     meta['obligations'] = em.obls
     meta['fn_ranges'] = em.fn_ranges
     meta['vacuity'] = em.vacuity
+    meta['degraded'] = em.degraded
     meta['assumed_contracts'] = em.assumed_contracts
     meta['imported_lemmas'] = em.imported_lemmas
     meta['linemap'] = {str(k): v for k, v in em.linemap.items()}
@@ -864,11 +869,31 @@ def emit_fn(em, unit, it, toks, fspec, path, src_text, rw):
     if fspec and fspec.body_start and not split:
         for ln in fspec.body_start:
             em.emit(ln)
+    if fspec and fspec.opts.get('split_tail'):
+        # R5e: tail expression `E.NAME()` -> `let __tail_in = E; let __tail_out = __tail_in.NAME(); __tail_out` (gives hints an anchor)
+        nm = fspec.opts['split_tail']
+        sg = [q for q in range(len(body)) if body[q].kind not in ('ws', 'comment', 'doc')]
+        if sg and body[sg[-1]].kind == 'raw' and body[sg[-1]].text.strip() == '.%s()' % nm:
+            rw.rec('R5e', 'E.%s()' % nm, 'let __tail_in = E; let __tail_out = __tail_in.%s(); __tail_out' % nm)
+            from rustlex import lex as _lex
+            body = (_lex('let __tail_in = ') + body[:sg[-1]] + _lex(';\n    let __tail_out = __tail_in.%s();\n    __tail_out\n' % nm))
+        elif len(sg) >= 4 and is_p(body[sg[-1]], ')') and is_p(body[sg[-2]], '(') and is_id(body[sg[-3]], nm) and is_p(body[sg[-4]], '.'):
+            rw.rec('R5e', 'E.%s()' % nm, 'let __tail_in = E; let __tail_out = __tail_in.%s(); __tail_out' % nm)
+            from rustlex import lex as _lex
+            body = (_lex('let __tail_in = ') + body[:sg[-4]] + _lex(';\n    let __tail_out = __tail_in.%s();\n    __tail_out\n' % nm))
+        else:
+            raise ExtractError('split_tail: the body of %s does not end in .%s(): %r' % (name, nm, [(body[q].kind, body[q].text) for q in sg[-5:]]))
     body = anf_split_try_map_filter(body, rw)
     body = rewrite_clone_from(body, rw)
     body = rewrite_for_filter(body, rw)
     if fspec and fspec.after_let:
+        fspec.lost_optional = []
         body = splice_after_let(body, fspec, lname)
+        if fspec.lost_optional:
+            keeps = set()
+            for nm in fspec.lost_optional:
+                keeps |= set(fspec.optional_lets.get(nm, []))
+            em.degraded.append({'unit': unit, 'fn': lname, 'lost': list(fspec.lost_optional), 'keeps': sorted(keeps)})
     if fspec and fspec.after_call:
         body = splice_after_call(body, fspec, lname)
     body = desugar_incl_ranges(body, fspec, rw)
